@@ -39,9 +39,12 @@ type multiOpts struct {
 	noMappings  bool
 	yamlFiles   bool
 	hostileText bool
+	sameDir     bool // all files in one directory (argument spelling == $ref spelling)
+	uniqueDefs  bool // definition names unique across files
+	blockPkgs   bool // packages assigned in contiguous blocks (no import cycles)
 }
 
-var pkgPool = []string{"example.com/gen/pkga", "example.com/gen/pkgb", "example.com/other/pkga", "example.com/gen/sub/pkgc", "pkgd"}
+var pkgPool = []string{"example.com/gen/pkga", "example.com/gen/pkgb", "example.com/other/pkga", "example.com/gen/sub/pkgc", "example.com/pkgd"}
 var idPool = []string{"https://example.com/a", "https://example.com/a/b", "https://example.com/a/b/c", "https://example.com/ab", "https://example.com/b", "urn:x:one", "https://example.com/a.json"}
 
 // genMulti draws 1..maxFiles schema files with a DAG of cross-file references
@@ -62,6 +65,9 @@ func genMulti(t *rapid.T, c *core.Ctx, mo multiOpts) *multiCase {
 	dirs := []string{"", "schemas", "schemas/sub", "other"}
 	for i := 0; i < nf; i++ {
 		dir := rapid.SampledFrom(dirs).Draw(t, "dir")
+		if mo.sameDir {
+			dir = ""
+		}
 		name := fmt.Sprintf("file%c", 'a'+i)
 		ext := ".json"
 		format := model.JSON
@@ -79,6 +85,25 @@ func genMulti(t *rapid.T, c *core.Ctx, mo multiOpts) *multiCase {
 			f.NoID = m.files[i-1].NoID
 		}
 		f.Spelling.LegacyID = rapid.IntRange(0, 3).Draw(t, "legacyid") == 0
+		if mo.uniqueDefs {
+			ren := map[string]string{}
+			for k := range f.Defs {
+				nn := fmt.Sprintf("F%c%s", 'a'+i, f.Defs[k].Name)
+				ren["#/$defs/"+f.Defs[k].Name] = "#/$defs/" + nn
+				f.Defs[k].Name = nn
+			}
+			fix := func(n *model.Node) {
+				if n.Kind == model.KRef {
+					if nr, ok := ren[n.Ref]; ok {
+						n.Ref = nr
+					}
+				}
+			}
+			model.Walk(f.Root, fix)
+			for _, d := range f.Defs {
+				model.Walk(d.Node, fix)
+			}
+		}
 		m.files = append(m.files, f)
 	}
 	// cross-file references: file i -> file j > i
@@ -112,15 +137,41 @@ func genMulti(t *rapid.T, c *core.Ctx, mo multiOpts) *multiCase {
 	m.cfg = gen.Config{DefaultPackage: "example.com/gen/defpkg", DefaultOutput: "out/defpkg/default.go"}
 	if !mo.noMappings {
 		seenID := map[string]bool{}
+		pool := pkgPool
+		if c.Avoid("packages.same_last_element") {
+			c.ExcludedMap()["packages.same_last_element"]++
+			pool = nil
+			for _, p := range pkgPool {
+				if p != "example.com/other/pkga" {
+					pool = append(pool, p)
+				}
+			}
+		}
+		pkgOrder := rapid.Permutation(pool).Draw(t, "pkgorder")
+		nextPkg, curPkg := 0, ""
+		defaultBlock := 0 // 0 not used yet, 1 inside the block of unmapped files, 2 finished
 		for i, f := range m.files {
 			if f.ID == "" || seenID[f.ID] {
 				continue
 			}
 			seenID[f.ID] = true
-			if rapid.IntRange(0, 9).Draw(t, "map") >= 7 {
+			if rapid.IntRange(0, 9).Draw(t, "map") >= 7 && !(mo.blockPkgs && defaultBlock == 2) {
+				if mo.blockPkgs {
+					defaultBlock, curPkg = 1, ""
+				}
 				continue
 			}
-			pkg := rapid.SampledFrom(pkgPool).Draw(t, "pkg")
+			if mo.blockPkgs && defaultBlock == 1 {
+				defaultBlock = 2
+			}
+			pkg := rapid.SampledFrom(pool).Draw(t, "pkg")
+			if mo.blockPkgs {
+				if curPkg == "" || rapid.Bool().Draw(t, "newpkg") {
+					curPkg = pkgOrder[nextPkg%len(pkgOrder)]
+					nextPkg++
+				}
+				pkg = curPkg
+			}
 			out := fmt.Sprintf("out/%s/gen_%c.go", pkg, 'a'+i)
 			mp := gen.Mapping{ID: f.ID, Package: pkg, Output: out}
 			if rapid.IntRange(0, 3).Draw(t, "roottype") == 0 {
